@@ -5,6 +5,13 @@ Protocol (first line selects the gate; strings are dot-separated hex code points
   filter <hex> [@ <hexpat>=<bit>*]                 the part after `@` is RECORDED from the real `re` calls
   learn <sig> [@ ok|bad] · forget <hex> · import <sig>* · thr <n> · addsig <sig> · clearaudit · adv <us>
   export · stats
+  par <sched> <hex> <hex> [<hex>..] [@ o=<tid.tid..> ; <hexpat>=<bit>* ; ...]
+        the listed inputs are filtered by as many THREADS on the one membrane, interleaved line by line by the
+        deterministic scheduler (util.Sched; every lock attribute of the object replaced by a util.SLock) following the
+        run-length schedule <sched> = `<tid>x<lines>.<tid>x<lines>...`; the order in which the threads entered the
+        rate check's critical section and each thread's regex results are RECORDED after `@`; the model runs the calls
+        one after the other in that order (justified by c10_rate_check_linearizable).  Undefined (`bad-op`) with a hook
+        installed or with two equal inputs on the line.
   inn <sevthr> <decayMinutes> <none|empty|V,V,..> <sig>*    V = L:min:max | C:ctl:null | J:depth:size
   check <hex> [@ <hexpat>=<bit>* ; <P:tree|D|V|R|O>]        json.loads outcome recorded as well
   addpat <sig> · addval V · resetinfl · adv <us> · istats
@@ -17,9 +24,10 @@ from __future__ import annotations
 import itertools
 import json as _json
 import re as _re
+import threading as _threading
 
 from ..core import Prop, Violation, import_repo, hexs, unhexs, show_bool, write_if_changed, LEAN, REPO
-from ..util import FakeClock
+from ..util import FakeClock, Sched, SLock
 
 WINDOW_US = 60_000_000
 SEPS = " \t\n.,;:!?()[]{}\"'-—/\\|<>=+*&^%$#@~`\x00\x01\x1f"
@@ -67,6 +75,56 @@ def rxkey(p: str) -> str:
     for i, ch in enumerate(p, 1):
         acc = (acc + i * ord(ch)) % 1000003
     return f"k{len(p)}_{acc}"
+
+
+def rle(vec) -> str:
+    """schedule vector -> `<tid>x<count>.<tid>x<count>...`"""
+    out = []
+    for k in vec:
+        if out and out[-1][0] == k:
+            out[-1][1] += 1
+        else:
+            out.append([k, 1])
+    return ".".join(f"{k}x{n}" for k, n in out) if out else "-"
+
+
+def unrle(tok: str) -> list:
+    vec = []
+    if tok == "-":
+        return vec
+    for seg in tok.split("."):
+        k, n = seg.split("x")
+        vec.extend([int(k)] * min(int(n), 5000))
+    return vec[:20000]
+
+
+_LOCK_T, _RLOCK_T = type(_threading.Lock()), type(_threading.RLock())
+
+
+class BudgetSched(Sched):
+    """util.Sched with a line budget: a thread that never finishes stops the run"""
+    LIMIT = 20000
+
+    def yield_(self, tid):
+        if len(self.trace) > self.LIMIT:
+            with self.cv:
+                self.deadlock = True
+                self.cv.notify_all()
+            raise SystemExit
+        return super().yield_(tid)
+
+
+class OrderLock(SLock):
+    """scheduler-aware lock that records, in one list shared by all locks of the object, who acquired"""
+    def __init__(self, sched, reentrant, name, acqlog):
+        super().__init__(sched, reentrant=reentrant, name=name)
+        self.acqlog = acqlog
+
+    def acquire(self, *a, **k):
+        r = super().acquire(*a, **k)
+        if r:
+            self.acqlog.append(self.owner)
+        return r
 
 
 def lower_std(c: int) -> int:
@@ -234,7 +292,7 @@ class C10(Prop):
     thorough_budget = 24000
     quick_deadline_s = 100
     thorough_deadline_s = 800
-    all_branches = ["h:raise", "h:ok", "c:hook-raise", "c:hook-ok", "f:rate", "f:replay", "f:allow", "f:block", "f:rx-hit", "f:sub-hit", "l:off", "l:bad", "l:new",
+    all_branches = ["p:seq", "p:reorder", "p:rate", "h:raise", "h:ok", "c:hook-raise", "c:hook-ok", "f:rate", "f:replay", "f:allow", "f:block", "f:rx-hit", "f:sub-hit", "l:off", "l:bad", "l:new",
                     "l:replace", "g:hit", "g:miss", "c:allow", "c:block-sev", "c:block-err", "c:block-acute",
                     "c:cooling-low", "i:lvl0", "i:lvl1", "i:lvl2", "i:lvl3", "i:lvl4", "v:len-short", "v:len-long",
                     "v:null", "v:ctl", "v:json-size", "v:json-depth", "v:json-dec", "v:json-val", "v:json-rec"]
@@ -293,6 +351,12 @@ class C10(Prop):
                 s._compiled = RecPattern(c, int(c.flags), self.rxlog)
         self.mb_builtin = [self._sigtok(s.pattern, s.level.value, s.is_regex) for s in MB.Membrane.INNATE_SIGNATURES]
         self.in_builtin = [self._sigtok(p.pattern, p.severity, p.is_regex) for p in IN.InnateImmunity.DEFAULT_PATTERNS]
+        # how many lines of membrane.py one admitted filter() call executes (switch points of the flood schedules)
+        probe = type("Probe", (MB.Membrane,), {"INNATE_SIGNATURES": []})(
+            signatures=[MB.ThreatSignature("jailbreak", MB.ThreatLevel.CRITICAL, "probe", False)], rate_limit=3, silent=True)
+        sc = Sched([0] * 4000, [MB.__file__])
+        sc.run([lambda: probe.filter(Signal(content="probe"))], join_timeout=5)
+        self.par_lines = min(max(len(sc.trace), 8), 120)
         # lowerStd vs. str.lower on every code point
         self.lower_exc = {c for c in range(0x110000) if chr(c).lower() != chr(lower_std(c))} | {0x3A3, 0x130}
         self.acheck = {"lower_exceptions": len(self.lower_exc), "case_variant_checks": 0, "embedding_checks": 0,
@@ -421,11 +485,19 @@ class C10(Prop):
         learned = {}
         lines = [" ".join(["mem", str(thr), rate, show_bool(adaptive)] + sigs)]
         hist = []
+        hooked = False
         for _ in range(rng.choice([1, 2, 3, 4, 6, 8, 10, 14])):
             op = rng.choice(["filter"] * 14 + ["learn", "learn", "forget", "import", "thr", "addsig", "adv", "adv",
                                                "clearaudit", "stats", "export", "thrattr", "rate", "rate", "adaptive",
-                                               "hook", "hook"])
-            if op == "filter":
+                                               "hook", "hook", "par", "par"])
+            if op == "par":
+                if hooked:
+                    lines.append("hook none")
+                    hooked = False
+                cs = self._par_contents(rng, sigs + list(learned.values()), hist, rng.choice([2, 2, 3]))
+                hist.extend(cs)
+                lines.append(self._par_line(rng, cs))
+            elif op == "filter":
                 c = self._content(rng, sigs + list(learned.values()), hist, tier, huge_ok)
                 if len(c) > 50_000:
                     huge_ok = False
@@ -468,7 +540,9 @@ class C10(Prop):
                 adaptive = rng.random() < 0.5
                 lines.append(f"adaptive {show_bool(adaptive)}")
             elif op == "hook":
-                lines.append(f"hook {rng.choice(['none', 'ok', 'R', 'K', 'E', 'A'])}")
+                k = rng.choice(['none', 'ok', 'R', 'K', 'E', 'A'])
+                hooked = k != "none"
+                lines.append(f"hook {k}")
             elif op == "addsig":
                 s = self._rand_sig(rng, 3)
                 if hist and rng.random() < 0.4:
@@ -483,6 +557,61 @@ class C10(Prop):
             else:
                 lines.append(op)
         return {"lines": lines, "note": "random membrane history"}
+
+    def _par_contents(self, rng, active, hist, n):
+        """n pairwise distinct inputs for the threads of one `par` line"""
+        cs = []
+        for i in range(n):
+            c = self._content(rng, active, hist, "quick", False) if rng.random() < 0.5 else rng.choice(BENIGN)
+            c = str(c)
+            while c in cs:
+                c += f" #{i}"
+            cs.append(c)
+        return cs
+
+    def _schedule(self, rng, n, L=None):
+        """a schedule vector for n threads: serial, one / two context switches at a random line, or bursts"""
+        L = L or getattr(self, "par_lines", 40)
+        k = rng.random()
+        first = rng.randrange(n)
+        other = rng.choice([x for x in range(n) if x != first])
+        if k < 0.1:
+            return [first] * 9999
+        if k < 0.4:
+            return [first] * rng.randint(0, L) + [other] * 9999
+        if k < 0.65:
+            return [first] * rng.randint(0, L) + [other] * rng.randint(1, L) + [first] * 9999
+        vec = []
+        while len(vec) < 40 * n:
+            vec.extend([rng.randrange(n)] * rng.choice([1, 1, 2, 3, 5, 8, 13, 21]))
+        return vec
+
+    def _par_line(self, rng, contents):
+        return " ".join(["par", rle(self._schedule(rng, len(contents)))] + [hexs(c) for c in contents])
+
+    def _gen_flood(self, rng):
+        """a flood: several threads hit the one membrane at the same instant while the window is nearly full"""
+        r = rng.choice([1, 1, 2, 2, 3, 5])
+        sigs = [self._sigtok("jailbreak", 3, False)] if rng.random() < 0.7 else list(self.mb_builtin)[:rng.choice([2, 6])]
+        lines = [" ".join(["mem", str(rng.choice([1, 2, 2, 3])), str(r), "1"] + sigs)]
+        n0 = rng.choice([max(0, r - 1), max(0, r - 1), max(0, r - 2), 0, r])
+        for i in range(n0):
+            lines.append("filter " + hexs(f"warm up {i}"))
+        k = 0
+        for _ in range(rng.choice([1, 1, 2, 3])):
+            n = rng.choice([2, 2, 2, 3, 4])
+            cs = [rng.choice(BENIGN[:4]) + f" t{k + i}" + (" jailbreak" if rng.random() < 0.15 else "") for i in range(n)]
+            k += n
+            lines.append(self._par_line(rng, cs))
+            j = rng.random()
+            if j < 0.3:
+                lines.append(f"adv {rng.choice([125_000, 30_000_000, 59_875_000, 60_000_000, 60_125_000])}")
+            elif j < 0.45:
+                lines.append(f"rate {rng.choice(['none', '1', '2', '3'])}")
+            elif j < 0.6:
+                lines.append("filter " + hexs(f"single {k}"))
+        lines.append("stats")
+        return {"lines": lines, "note": "flood: concurrent filter() calls on one membrane under a scheduled interleaving"}
 
     def _gen_retune(self, rng):
         """an operator retunes the live membrane: rate limit raised / lowered / switched off and on, a hook that
@@ -610,8 +739,8 @@ class C10(Prop):
         for i in range(n):
             huge_ok = huge_budget > 0 and rng.random() < (0.02 if tier == "quick" else 0.01)
             k = rng.random()
-            c = self._gen_retune(rng) if k < 0.08 else self._gen_membrane(rng, tier, huge_ok) if k < 0.58 \
-                else self._gen_innate(rng, tier, huge_ok)
+            c = self._gen_retune(rng) if k < 0.08 else self._gen_flood(rng) if k < 0.16 \
+                else self._gen_membrane(rng, tier, huge_ok) if k < 0.6 else self._gen_innate(rng, tier, huge_ok)
             if huge_ok and any(len(l) > 100_000 for l in c["lines"]):
                 huge_budget -= 1
             yield c
@@ -657,7 +786,28 @@ class C10(Prop):
                         ls += ["filter " + hexs(f"warm up {i}") for i in range(3)] + [f"rate {r1}"] + ([gap] if gap else [])
                         ls += ["filter " + hexs(f"burst {i}" + (" jailbreak" if i == 2 else "")) for i in range(8)] + ["stats"]
                         retune.append({"lines": ls, "note": "rate limit re-assigned on the live membrane, burst in one window"})
-        return [{"name": "rate limit re-assigned on a live membrane: 5 initial x 6 new limits x 3 time gaps x hook/no hook, "
+        L = self.par_lines
+        floods = []
+
+        def flood(r, vec, n=2):
+            ls = [f"mem 2 {r} 1 " + self._sigtok("jailbreak", 3, False)]
+            ls += ["filter " + hexs(f"warm up {i}") for i in range(r - 1)]
+            ls += [" ".join(["par", rle(vec)] + [hexs(f"thread {i}") for i in range(n)]), "stats"]
+            floods.append({"lines": ls, "note": "two threads, window one short of full, schedule enumerated"})
+        for r in (1, 2, 3):
+            for first in (0, 1):
+                for a in range(0, L + 1):
+                    flood(r, [first] * a + [1 - first] * 9999)
+        stride = 3 if tier == "quick" else 1
+        for first in (0, 1):
+            for a in range(1, L + 1):
+                for b in range(1 + (a % stride), L + 1, stride):
+                    flood(2, [first] * a + [1 - first] * b + [first] * 9999)
+        return [{"name": f"flood: 2 threads call filter() at one instant with rate_limit-1 requests already admitted; every "
+                         f"schedule with one context switch (limits 1-3, either thread first, switch after each of the "
+                         f"{L} lines a call executes) and schedules with two context switches (limit 2, "
+                         f"{'every third' if stride > 1 else 'every'} second switch point)", "cases": floods},
+                {"name": "rate limit re-assigned on a live membrane: 5 initial x 6 new limits x 3 time gaps x hook/no hook, "
                          "3 warm-up calls + burst of 8", "cases": retune},
                 {"name": "every shipped signature (membrane, innate) x every instance of the vetted table x every "
                          "threshold x 5-7 case/embedding variants", "cases": shipped},
@@ -733,10 +883,10 @@ class C10(Prop):
                 raise exc
         return hook
 
-    def _rx_obs(self, content):
+    def _rx_obs(self, content, entries=None):
         """canonical list of the regex calls made since the log was cleared + the table handed to the driver"""
         calls, table = [], {}
-        for (method, pat, flags, s, res) in self.rxlog:
+        for (method, pat, flags, s, res) in (self.rxlog if entries is None else entries):
             tok = rxkey(pat)
             if method != "search":
                 tok = method + ":" + tok
@@ -814,6 +964,8 @@ class C10(Prop):
                                f"last={show_bool(bool(log) and log[-1] is r)} tf={st['total_filtered']} "
                                f"tb={st['total_blocked']} ln={st['learned_patterns']} bh={st['blocked_hashes']} rx={calls} "
                                f"hk={hk}")
+                elif op == "par":
+                    obs.append(self._run_par(m, t, line, lines, idx))
                 elif op == "learn":
                     pat, lvl, rx = self._parse_sig(t[1])
                     try:
@@ -951,6 +1103,57 @@ class C10(Prop):
                     raise
         return obs, None
 
+    def _run_par(self, m, t, line, lines, idx):
+        """`par`: one thread per input calls m.filter() on the SAME membrane; the threads are interleaved line by line
+        (membrane.py) by the deterministic scheduler following the schedule vector on the line"""
+        MB = self.MB
+        contents = [dec(x) for x in t[2:]]
+        if m is None or m.on_threat is not None or len(contents) < 2 or len(set(contents)) != len(contents):
+            return "bad-op"
+        n = len(contents)
+        sched = BudgetSched(unrle(t[1]), [MB.__file__])
+        acqlog, saved = [], {}
+        for k, v in list(vars(m).items()):
+            if isinstance(v, (_LOCK_T, _RLOCK_T)):
+                saved[k] = v
+                setattr(m, k, OrderLock(sched, isinstance(v, _RLOCK_T), k, acqlog))
+        sig = self.Signal
+
+        def mk(i):
+            return lambda: m.filter(sig(content=contents[i]))
+        try:
+            finished = sched.run([mk(i) for i in range(n)], join_timeout=5)
+        finally:
+            leaked = [k for k in saved if getattr(m, k).locked()]
+            for k, v in saved.items():
+                setattr(m, k, _threading.RLock() if isinstance(v, _RLOCK_T) else _threading.Lock())
+        order = []
+        for tid in acqlog + list(range(n)):
+            if tid is not None and tid not in order and 0 <= tid < n:
+                order.append(tid)
+        log = m.get_audit_log()
+        st = m.get_statistics()
+        parts, tables = [], []
+        for i in range(n):
+            entries = [e for e in self.rxlog if e[3] == contents[i] or e[3] not in contents]
+            calls, table = self._rx_obs(contents[i], entries)
+            tables.append(table)
+            kind, r = (sched.results[i] or ("hang", None)) if finished else ("hang", None)
+            if kind == "ok" and r is not None:
+                ms = sorted(self._sigtok(x.pattern, x.level.value, x.is_regex) for x in r.matched_signatures)
+                head = f"{show_bool(r.allowed)} {r.threat_level.value} m=[{','.join(ms)}]"
+                inlog = show_bool(any(x is r for x in log))
+            elif kind == "raise":
+                head, inlog = f"raise:{type(r).__name__}", "0"
+            else:
+                head, inlog = f"raise:{'Deadlock' if sched.deadlock else 'Hang'}", "0"
+            parts.append(f"{head} in={inlog} rx={calls}")
+        ordtok = ".".join(str(x) for x in order)
+        lines[idx] = line + f" @ o={ordtok} ; " + " ; ".join(tables)
+        return (f"par o={ordtok} | " + " | ".join(parts) + f" | audit={len(log)} tf={st['total_filtered']} "
+                f"tb={st['total_blocked']} ln={st['learned_patterns']} bh={st['blocked_hashes']}"
+                + (" leaked=" + ",".join(leaked) if leaked else ""))
+
     # ----------------------------------------------------------------------------------------------------------
     # oracle: the property text on what the real code did (independent of the Lean model)
     # ----------------------------------------------------------------------------------------------------------
@@ -1050,6 +1253,54 @@ class C10(Prop):
         epoch_blocked = []            # (content, blocking signatures) scan-blocked since the last relaxing op
         adaptive = True
         n_calls = n_blocked = 0
+
+        def judge(content, f, o, idx):
+            """one decision (f = [allowed, level, m=[..], ...]) against the property text, under the rules, threshold,
+            rate limit and clock visible at this moment"""
+            allowed, level = f[0] == "1", int(f[1])
+            matched = [self._parse_sig(x) for x in f[2][3:-1].split(",") if x]
+            active = sigs + list(learned.values())
+            hits = [s for s in active if self._sig_hits(s, content)]
+            blockers = [s for s in hits if s[1] >= thr]
+            # allowed only if no active signature at or above the threshold matches
+            if allowed and blockers:
+                out.append(Violation("allowed_only_if_clean", "blocked: " + repr(blockers[:2]), o[:120], idx))
+            rate_or_replay = (not allowed) and level == 3 and not matched
+            if not rate_or_replay:
+                # reported level is the maximum over matched signatures, matched = the active ones that match
+                want = max([s[1] for s in hits], default=0)
+                if level != want:
+                    out.append(Violation("level_is_max_of_matched", str(want), str(level), idx))
+                if sorted(matched) != sorted(hits):
+                    out.append(Violation("matched_are_the_matching_signatures", repr(sorted(hits))[:200],
+                                         repr(sorted(matched))[:200], idx))
+                if allowed != (want < thr):
+                    out.append(Violation("blocked_iff_level_reaches_threshold", f"allowed={want < thr}", o[:80], idx))
+            # replay memory
+            if content in blocked_before and allowed:
+                out.append(Violation("replay_memory", "still blocked (blocked before at line "
+                                     f"{blocked_before[content]})", o[:80], idx))
+            # case changes / embedding of something blocked under the current rules
+            for prev in epoch_blocked:
+                ex = self._variant_expectation(prev, content, active, thr)
+                if ex == "expect" and allowed:
+                    out.append(Violation("blocked_stays_blocked_under_case_and_embedding",
+                                         f"blocked like {prev[0][:40]!r}", o[:80], idx))
+                    break
+            # rate window: at most rate_limit admitted in any 60 s window
+            # (judged by the limit visible through m.rate_limit at this moment; admissions made while no limit
+            #  was in force are not counted)
+            if allowed and rate is not None:
+                allowed_times.append(now)
+                k = sum(1 for x in allowed_times if now - WINDOW_US < x <= now)
+                if k > rate:
+                    out.append(Violation("rate_window", f"<= {rate} admitted in the last 60 s", f"{k}", idx))
+            if not allowed and not rate_or_replay:
+                blocked_before.setdefault(content, idx)
+                if blockers and len(content) < 5000:
+                    epoch_blocked.append((content, blockers))
+                    del epoch_blocked[:-6]
+
         for idx, (line, o) in enumerate(zip(lines, obs)):
             t = line.split(" ")
             op = t[0]
@@ -1114,52 +1365,37 @@ class C10(Prop):
                                              f"{f[1]} {f[2]}", idx))
                     blocked_before.setdefault(content, idx)
                     continue
-                allowed, level = f[0] == "1", int(f[1])
-                matched = [self._parse_sig(x) for x in f[2][3:-1].split(",") if x]
                 # every decision is appended to the audit trail
                 if f[3] != f"audit={audit}" or f[4] != "last=1":
                     out.append(Violation("audit_complete", f"audit={audit} last=1", f"{f[3]} {f[4]}", idx))
-                active = sigs + list(learned.values())
-                hits = [s for s in active if self._sig_hits(s, content)]
-                blockers = [s for s in hits if s[1] >= thr]
-                # allowed only if no active signature at or above the threshold matches
-                if allowed and blockers:
-                    out.append(Violation("allowed_only_if_clean", "blocked: " + repr(blockers[:2]), o[:120], idx))
-                rate_or_replay = (not allowed) and level == 3 and not matched
-                if not rate_or_replay:
-                    # reported level is the maximum over matched signatures, matched = the active ones that match
-                    want = max([s[1] for s in hits], default=0)
-                    if level != want:
-                        out.append(Violation("level_is_max_of_matched", str(want), str(level), idx))
-                    if sorted(matched) != sorted(hits):
-                        out.append(Violation("matched_are_the_matching_signatures", repr(sorted(hits))[:200],
-                                             repr(sorted(matched))[:200], idx))
-                    if allowed != (want < thr):
-                        out.append(Violation("blocked_iff_level_reaches_threshold", f"allowed={want < thr}", o[:80], idx))
-                # replay memory
-                if content in blocked_before and allowed:
-                    out.append(Violation("replay_memory", "still blocked (blocked before at line "
-                                         f"{blocked_before[content]})", o[:80], idx))
-                # case changes / embedding of something blocked under the current rules
-                for prev in epoch_blocked:
-                    ex = self._variant_expectation(prev, content, active, thr)
-                    if ex == "expect" and allowed:
-                        out.append(Violation("blocked_stays_blocked_under_case_and_embedding",
-                                             f"blocked like {prev[0][:40]!r}", o[:80], idx))
-                        break
-                # rate window: at most rate_limit admitted in any 60 s window
-                # (judged by the limit visible through m.rate_limit at this moment; admissions made while no limit
-                #  was in force are not counted)
-                if allowed and rate is not None:
-                    allowed_times.append(now)
-                    k = sum(1 for x in allowed_times if now - WINDOW_US < x <= now)
-                    if k > rate:
-                        out.append(Violation("rate_window", f"<= {rate} admitted in the last 60 s", f"{k}", idx))
-                if not allowed and not rate_or_replay:
-                    blocked_before.setdefault(content, idx)
-                    if blockers and len(content) < 5000:
-                        epoch_blocked.append((content, blockers))
-                        del epoch_blocked[:-6]
+                judge(content, f, o, idx)
+            elif op == "par" and o.startswith("par "):
+                # several threads filter at the same instant: every clause is judged per decision; the window and the
+                # published counters are judged once all of them have returned
+                contents = [dec(x) for x in t[2:]]
+                segs = o.split(" | ")
+                parts, tail = segs[1:-1], segs[-1].split(" ")
+                if len(parts) != len(contents):
+                    continue
+                for content, part in zip(contents, parts):
+                    f = part.split(" ")
+                    audit += 1
+                    n_calls += 1
+                    if part.startswith("raise:"):
+                        out.append(Violation("never_raises", "a FilterResult for every input string, from every thread",
+                                             part[:80], idx))
+                        continue
+                    if f[0] == "0":
+                        n_blocked += 1
+                    if "in=1" not in f:
+                        out.append(Violation("audit_complete", "the decision of every concurrent call is in the audit trail",
+                                             part[:80], idx))
+                    judge(content, f, part, idx)
+                if not any(p_.startswith("raise:") for p_ in parts):
+                    want = [f"audit={audit}", f"tf={n_calls}", f"tb={n_blocked}"]
+                    got = [x for x in tail if x.startswith(("audit=", "tf=", "tb="))]
+                    if got != want:
+                        out.append(Violation("bookkeeping_complete", " ".join(want), " ".join(got), idx))
 
     def _oracle_inn(self, lines, obs, out):
         thr = 3
